@@ -74,6 +74,8 @@ enum RTy {
     Adt {
         hip: bool,
         lts: Vec<Region>,
+        /// per lifetime argument: is it the region of a `&'p mut` field of the definition?
+        mut_lts: Vec<bool>,
         args: Vec<RTy>,
     },
     Compound(Vec<RTy>),
@@ -419,6 +421,7 @@ impl<'a, 'r> SigCx<'a, 'r> {
                 }
                 Ok(RTy::Adt {
                     hip: false,
+                    mut_lts: vec![false; lts.len()],
                     lts,
                     args,
                 })
@@ -439,7 +442,8 @@ impl<'a, 'r> SigCx<'a, 'r> {
                             return self.err(span, "lifetime argument count mismatch");
                         }
                         let hip = HIP_DEFS.contains(&self.cm.def_path(d).as_str());
-                        Ok(RTy::Adt { hip, lts, args })
+                        let mut_lts = mut_borrow_params(self.cm, d)?;
+                        Ok(RTy::Adt { hip, lts, mut_lts, args })
                     }
                     DefKind::Alias(a) => {
                         let (_, n_lt, _) = generic_names(&a.generics);
@@ -479,8 +483,9 @@ impl<'a, 'r> SigCx<'a, 'r> {
                                 };
                                 match t {
                                     RTy::Ref(x, i) => RTy::Ref(r(x), Box::new(sub_r(i, names, lts))),
-                                    RTy::Adt { hip, lts: l, args } => RTy::Adt {
+                                    RTy::Adt { hip, lts: l, mut_lts, args } => RTy::Adt {
                                         hip: *hip,
+                                        mut_lts: mut_lts.clone(),
                                         lts: l.iter().map(&r).collect(),
                                         args: args.iter().map(|a| sub_r(a, names, lts)).collect(),
                                     },
@@ -519,11 +524,66 @@ impl<'a, 'r> SigCx<'a, 'r> {
     }
 }
 
+/// For a local struct/enum/union: per lifetime parameter, does some field have the type
+/// `&'p mut …` (at any depth of the field's type) with `'p` that parameter?
+fn mut_borrow_params(cm: &CrateModel, d: usize) -> Result<Vec<bool>, String> {
+    let g = cm.generics_of(d).ok_or("definition without generics")?;
+    let names: Vec<String> = g.lifetimes().map(|l| l.lifetime.ident.to_string()).collect();
+    let mut out = vec![false; names.len()];
+    struct V<'a> {
+        names: &'a [String],
+        out: &'a mut Vec<bool>,
+    }
+    impl<'ast, 'a> Visit<'ast> for V<'a> {
+        fn visit_type_reference(&mut self, r: &'ast syn::TypeReference) {
+            if r.mutability.is_some() {
+                if let Some(l) = &r.lifetime {
+                    if let Some(i) = self.names.iter().position(|n| *n == l.ident.to_string()) {
+                        self.out[i] = true;
+                    }
+                }
+            }
+            syn::visit::visit_type_reference(self, r);
+        }
+    }
+    let mut v = V { names: &names, out: &mut out };
+    match &cm.defs[d].kind {
+        DefKind::Struct(s) => {
+            for f in s.fields.iter() {
+                if cfg_active(&f.attrs)? {
+                    v.visit_type(&f.ty);
+                }
+            }
+        }
+        DefKind::Enum(e) => {
+            for var in &e.variants {
+                for f in var.fields.iter() {
+                    if cfg_active(&f.attrs)? {
+                        v.visit_type(&f.ty);
+                    }
+                }
+            }
+        }
+        DefKind::Union(u) => {
+            for f in u.fields.named.iter() {
+                if cfg_active(&f.attrs)? {
+                    v.visit_type(&f.ty);
+                }
+            }
+        }
+        _ => {}
+    }
+    Ok(out)
+}
+
 #[derive(Clone, Copy, PartialEq, Eq, Debug)]
 pub enum Role {
     SelfRef,
     SelfHip,
     SelfOther,
+    /// lifetime parameter of `Self` that is the region of a `&'p mut` field (`Drain<'a, V>`,
+    /// the `RefMut` guards): from `&self`/`&mut self` nothing may be handed out at that region
+    SelfMut,
     ArgRef,
     ArgHip,
     ArgOther,
@@ -535,6 +595,7 @@ impl Role {
             Role::SelfRef => ".selfRef",
             Role::SelfHip => ".selfHip",
             Role::SelfOther => ".selfOther",
+            Role::SelfMut => ".selfMut",
             Role::ArgRef => ".argRef",
             Role::ArgHip => ".argHip",
             Role::ArgOther => ".argOther",
@@ -575,9 +636,16 @@ fn walk_in(
             out.push((r_ref, r.clone()));
             walk_in(i, is_self, bounds, out);
         }
-        RTy::Adt { hip, lts, args } => {
+        RTy::Adt { hip, lts, mut_lts, args } => {
             for (k, r) in lts.iter().enumerate() {
-                out.push((if *hip && k == 0 { r_hip } else { r_other }, r.clone()));
+                let role = if *hip && k == 0 {
+                    r_hip
+                } else if is_self && mut_lts.get(k).copied().unwrap_or(false) {
+                    Role::SelfMut
+                } else {
+                    r_other
+                };
+                out.push((role, r.clone()));
             }
             for a in args {
                 walk_in(a, is_self, bounds, out);
@@ -610,7 +678,7 @@ fn walk_out(t: &RTy, out: &mut Vec<(Pos, Region)>) {
             out.push((Pos::Ref, r.clone()));
             walk_out(i, out);
         }
-        RTy::Adt { hip, lts, args } => {
+        RTy::Adt { hip, lts, args, .. } => {
             for (k, r) in lts.iter().enumerate() {
                 out.push((if *hip && k == 0 { Pos::Hip } else { Pos::Other }, r.clone()));
             }
@@ -741,7 +809,115 @@ fn scan_generics(
     }
 }
 
+/// Is `e` built from the fn's own parameters / `self` only (paths, `&`, `*`, field access,
+/// casts)? `uses_param` is set when a non-`self` parameter occurs.
+fn passthrough(e: &syn::Expr, params: &[String], uses_param: &mut bool) -> bool {
+    match e {
+        syn::Expr::Paren(p) => passthrough(&p.expr, params, uses_param),
+        syn::Expr::Group(p) => passthrough(&p.expr, params, uses_param),
+        syn::Expr::Reference(r) => passthrough(&r.expr, params, uses_param),
+        syn::Expr::Unary(u) => matches!(u.op, syn::UnOp::Deref(_)) && passthrough(&u.expr, params, uses_param),
+        syn::Expr::Field(f) => passthrough(&f.base, params, uses_param),
+        syn::Expr::Cast(c) => passthrough(&c.expr, params, uses_param),
+        syn::Expr::Path(p) => match p.path.get_ident() {
+            Some(id) => {
+                let n = id.to_string();
+                if n == "self" {
+                    true
+                } else if params.contains(&n) {
+                    *uses_param = true;
+                    true
+                } else {
+                    false
+                }
+            }
+            None => false,
+        },
+        _ => false,
+    }
+}
+
+/// PURE FORWARDER analysis. `Some(callee)` when the body's only statement / tail expression is —
+/// possibly inside `unsafe { }`, which a safe fn needs to reach an unsafe callee — a single call
+/// or method call in unsafe context (an `unsafe` block, or anywhere in an `unsafe fn`) whose
+/// receiver and arguments are the fn's own parameters passed through unvalidated, at least one
+/// of them a parameter other than `self` (a fn that forwards only `self` relies on the type's
+/// invariant, not on its caller). Such a fn trusts its caller exactly as much as the callee
+/// does, so it must be `unsafe` itself.
+pub fn forwarder_of(sig: &syn::Signature, block: &syn::Block) -> Option<String> {
+    let mut params = vec![];
+    for a in &sig.inputs {
+        if let syn::FnArg::Typed(pt) = a {
+            if let syn::Pat::Ident(pi) = &*pt.pat {
+                params.push(pi.ident.to_string());
+            }
+        }
+    }
+    if block.stmts.len() != 1 {
+        return None;
+    }
+    let mut e: &syn::Expr = match &block.stmts[0] {
+        syn::Stmt::Expr(e, _) => e,
+        _ => return None,
+    };
+    let mut in_unsafe = sig.unsafety.is_some();
+    loop {
+        match e {
+            syn::Expr::Unsafe(u) if u.block.stmts.len() == 1 => match &u.block.stmts[0] {
+                syn::Stmt::Expr(inner, _) => {
+                    in_unsafe = true;
+                    e = inner;
+                }
+                _ => return None,
+            },
+            syn::Expr::Block(b) if b.label.is_none() && b.block.stmts.len() == 1 => match &b.block.stmts[0] {
+                syn::Stmt::Expr(inner, _) => e = inner,
+                _ => return None,
+            },
+            syn::Expr::Paren(p) => e = &p.expr,
+            syn::Expr::Group(p) => e = &p.expr,
+            _ => break,
+        }
+    }
+    if !in_unsafe {
+        return None;
+    }
+    let mut uses_param = false;
+    match e {
+        syn::Expr::Call(c) => {
+            let syn::Expr::Path(fp) = &*c.func else { return None };
+            for a in &c.args {
+                if !passthrough(a, &params, &mut uses_param) {
+                    return None;
+                }
+            }
+            if !uses_param {
+                return None;
+            }
+            Some(norm_tokens(&fp.path))
+        }
+        syn::Expr::MethodCall(m) => {
+            let mut recv_uses = false;
+            if !passthrough(&m.receiver, &params, &mut recv_uses) {
+                return None;
+            }
+            for a in &m.args {
+                if !passthrough(a, &params, &mut uses_param) {
+                    return None;
+                }
+            }
+            if !uses_param {
+                return None;
+            }
+            Some(format!("{}.{}", norm_tokens(&*m.receiver), m.method))
+        }
+        _ => None,
+    }
+}
+
 pub struct FnRow {
+    /// `Some(callee)`: the body is a pure forwarder to `callee` in unsafe context
+    pub forwards: Option<String>,
     pub name: String,
     pub simple: String,
     pub kind: &'static str,
@@ -772,6 +948,10 @@ pub struct SelfEscape {
     pub args: Vec<String>,
     /// the skeleton ties an output region to the `&self` borrow ⇒ rustc must reject
     pub predicted_reject: bool,
+    /// PROPERTY-level expectation, independent of the regions the translator computed: the
+    /// result contains a reference, or the receiver type holds a `&'p mut` borrow — such a
+    /// result must not outlive the receiver unless the row is a reviewed exception
+    pub must_not_outlive_receiver: bool,
 }
 
 #[derive(Clone, Debug)]
@@ -1314,13 +1494,15 @@ fn make_row(
     owner: &Owner,
     sig: &syn::Signature,
     attrs: &[syn::Attribute],
+    body: Option<&syn::Block>,
 ) -> Result<FnRow, String> {
     let sk = skeleton(cm, module, file, owner, sig)?;
+    let forwards = body.and_then(|b| forwarder_of(sig, b));
     let simple = sig.ident.to_string();
     let is_unsafe = sig.unsafety.is_some();
     let name_unchecked = simple.ends_with("_unchecked");
     let has_safety_doc = has_safety_heading(attrs);
-    let probe = if is_unsafe || name_unchecked || has_safety_doc {
+    let probe = if is_unsafe || name_unchecked || has_safety_doc || forwards.is_some() || owner.is_trait_decl {
         make_probe(cm, module, owner, sig)
     } else {
         Err("not needed".into())
@@ -1354,12 +1536,15 @@ fn make_row(
                 callee,
                 args: args[1..].to_vec(),
                 predicted_reject,
+                must_not_outlive_receiver: sk.outs.iter().any(|(p, _)| *p == Pos::Ref)
+                    || sk.ins.iter().any(|(r, _)| *r == Role::SelfMut),
             })
         }))
     } else {
         None
     };
     Ok(FnRow {
+        forwards,
         self_escape,
         name: if owner.prefix.is_empty() {
             simple.clone()
@@ -1426,7 +1611,23 @@ fn macro_rows(prefix: &str, file: &SrcFile, ts: proc_macro2::TokenStream, rows: 
         }
         let simple = name.to_string();
         let line = name.span().start().line;
+        // the fn item's own tokens: `fn name … { body }` up to the first brace group; analysable
+        // when they parse as a method (no `$metavariable` inside)
+        let mut item = proc_macro2::TokenStream::new();
+        if is_unsafe {
+            item.extend(std::iter::once(TT::Ident(proc_macro2::Ident::new("unsafe", name.span()))));
+        }
+        for t in &toks[i..] {
+            item.extend(std::iter::once(t.clone()));
+            if matches!(t, TT::Group(g) if g.delimiter() == proc_macro2::Delimiter::Brace) {
+                break;
+            }
+        }
+        let forwards = syn::parse2::<syn::ImplItemFn>(item)
+            .ok()
+            .and_then(|f| forwarder_of(&f.sig, &f.block));
         rows.push(FnRow {
+            forwards,
             name: format!("{prefix}@{line}::{simple}"),
             name_unchecked: simple.ends_with("_unchecked"),
             simple,
@@ -1568,7 +1769,7 @@ pub fn collect(cm: &CrateModel) -> Result<Collected, String> {
                         is_trait_decl: false,
                         anon_count: 0,
                     };
-                    rows.push(make_row(cm, mi, file, &owner, &f.sig, &f.attrs)?);
+                    rows.push(make_row(cm, mi, file, &owner, &f.sig, &f.attrs, Some(&f.block))?);
                 }
                 syn::Item::Trait(t) => {
                     let d = module
@@ -1595,7 +1796,7 @@ pub fn collect(cm: &CrateModel) -> Result<Collected, String> {
                     for ti in &t.items {
                         if let syn::TraitItem::Fn(f) = ti {
                             if cfg_active(&f.attrs)? {
-                                rows.push(make_row(cm, mi, file, &owner, &f.sig, &f.attrs)?);
+                                rows.push(make_row(cm, mi, file, &owner, &f.sig, &f.attrs, f.default.as_ref())?);
                             }
                         }
                     }
@@ -1658,7 +1859,7 @@ pub fn collect(cm: &CrateModel) -> Result<Collected, String> {
                             if tc.is_none() && vis_of(&f.vis) != Vis::Pub {
                                 continue;
                             }
-                            rows.push(make_row(cm, mi, file, &owner, &f.sig, &f.attrs)?);
+                            rows.push(make_row(cm, mi, file, &owner, &f.sig, &f.attrs, Some(&f.block))?);
                         }
                     }
                 }
@@ -1985,7 +2186,7 @@ pub fn render(c: &Collected) -> String {
                 .join(", ");
             let owner = r.name.strip_suffix(&r.simple).and_then(|p| p.strip_suffix("::")).unwrap_or("");
             o.push_str(&format!(
-                "  ⟨{}, {}, {}, {}, {}, {}, {}, {}, {}, [{}], [{}], [{}], {}⟩{}\n",
+                "  ⟨{}, {}, {}, {}, {}, {}, {}, {}, {}, {}, [{}], [{}], [{}], {}⟩{}\n",
                 lean_string(&r.name),
                 key_of(&r.name),
                 lean_string(&r.simple),
@@ -1995,6 +2196,10 @@ pub fn render(c: &Collected) -> String {
                 r.is_unsafe,
                 r.name_unchecked,
                 r.has_safety_doc,
+                match &r.forwards {
+                    Some(c) => format!("(some {})", lean_string(c)),
+                    None => "none".to_string(),
+                },
                 ins,
                 outs,
                 ol,
